@@ -78,18 +78,22 @@ type verifTransport struct {
 	remoteAddr string
 	serverCtx  context.Context
 	rec        *verifRecorder
+	inline     bool // run the handler in the caller's goroutine (sequential harnesses)
 }
 
 func (t *verifTransport) RoundTrip(req *http.Request) (*http.Response, error) {
 	t.requests++
 	t.lastReq = req
-	if err := req.Context().Err(); err != nil {
+	cctx := req.Context()
+	if err := cctx.Err(); err != nil {
 		return nil, err
 	}
-	sctx := t.serverCtx
-	if sctx == nil {
-		sctx = context.Background()
+	parent := t.serverCtx
+	if parent == nil {
+		parent = context.Background()
 	}
+	// the server's request context ends when the client goes away
+	sctx, scancel := context.WithCancel(parent)
 	body := req.Body
 	if body == nil {
 		body = http.NoBody
@@ -100,7 +104,23 @@ func (t *verifTransport) RoundTrip(req *http.Request) (*http.Response, error) {
 	}).WithContext(sctx)
 	rec := newVerifRecorder()
 	t.rec = rec
-	t.handler.ServeHTTP(rec, sreq)
+	if t.inline {
+		t.handler.ServeHTTP(rec, sreq)
+		scancel()
+	} else {
+		done := make(chan struct{})
+		go func() {
+			t.handler.ServeHTTP(rec, sreq)
+			scancel()
+			close(done)
+		}()
+		select {
+		case <-done:
+		case <-cctx.Done():
+			scancel()
+			return nil, cctx.Err()
+		}
+	}
 	if !rec.wroteHeader {
 		rec.WriteHeader(http.StatusOK)
 	}
@@ -224,7 +244,9 @@ func (t *verifStreamTransport) RoundTrip(req *http.Request) (*http.Response, err
 	go func() {
 		select {
 		case <-cctx.Done():
-			pr.CloseWithError(cctx.Err())
+			// the client's transport fails pending and later body reads with the
+			// context's error
+			pw.CloseWithError(cctx.Err())
 			scancel()
 		case <-t.done:
 		}
